@@ -559,6 +559,10 @@ func decodeInet(data []byte) string {
 }
 
 func decodeArray(raw []byte, elemOid int) []interface{} {
+	// the empty array '{}' is stored with ndim = 0 and no dimensions (12 bytes); it is a value, not NULL
+	if len(raw) >= 12 && i32(raw, 0) == 0 {
+		return []interface{}{}
+	}
 	if len(raw) < 20 {
 		return nil
 	}
